@@ -108,11 +108,21 @@ type Verdict struct {
 // "generous"; such inputs still go through the parsers and the type checker.
 const MaxFormatNest = 800
 
-// CPULimit is the CPU budget of one request (inputs are at most 64 KiB).
+// CPULimit is the CPU budget of one request (inputs are at most 64 KiB): a
+// request that exceeds it is killed and becomes a hang *candidate*.
 const CPULimit = 20 * time.Second
 
+// ConfirmLimit is the CPU budget of the confirmation runs.  It is three times
+// the trigger budget: CPU time measured on a heavily shared machine is inflated
+// (cache and memory-bandwidth contention, SMT siblings) by a factor that was
+// observed to reach 2, and an input that needs 12 s on a quiet machine must not
+// be reported as a hang on a loaded one.  A genuine endless loop exceeds any
+// budget; super-linear but terminating work between the two budgets is counted
+// as "slow", not as a violation.
+const ConfirmLimit = 3 * CPULimit
+
 // HangConfirmations is how often a killed request must be killed again, each
-// time in a fresh worker, before it is reported as a hang.
+// time in a fresh worker with ConfirmLimit, before it is reported as a hang.
 const HangConfirmations = 3
 
 // NewWorker starts a client with the C08 budgets.
@@ -282,16 +292,19 @@ func Evaluate(w *wk.Client, c *Case) Verdict {
 		return v
 	case "killed":
 		for i := 0; i < HangConfirmations; i++ {
-			fresh := NewWorker(0)
+			fresh := NewWorker(ConfirmLimit)
 			o2 := fresh.Do("c08", args(c, true))
 			fresh.Close()
 			if o2.Kind != wk.Killed {
-				v.Outcome = "inconclusive:kill-not-reproduced"
+				v.Outcome = "inconclusive:slow-but-finished-within-" + ConfirmLimit.String()
+				if o2.Kind != wk.OK && o2.Kind != wk.Error {
+					v.Outcome = "inconclusive:kill-not-reproduced"
+				}
 				return v
 			}
 		}
 		v.Outcome, v.Key = "hang", key
-		v.What = what + fmt.Sprintf(" (CPU budget %v; reproduced %d× in fresh processes)", CPULimit, HangConfirmations)
+		v.What = what + fmt.Sprintf(" (killed at %v CPU, then killed %d× at %v CPU in fresh processes)", CPULimit, HangConfirmations, ConfirmLimit)
 		return v
 	case "not-c08:ssa-panic":
 		v.What = what
